@@ -27,6 +27,17 @@ Theorem C03_reachable_states_qualify : forall cf hf K b, XInv hf K b -> FMok cf 
 Proof. exact xinv_gpre. Qed.
 Print Assumptions C03_reachable_states_qualify.
 
+(* (2b) PASSES CAN FOLLOW ONE ANOTHER (previously collected files): the state a pass leaves satisfies the refinement
+   relation for the same map AND the GC precondition again, with the same head file; hence any number of passes over
+   any legal ranges leaves every key reading what it read before the first one. *)
+Theorem C03_any_number_of_passes : forall (cf : cfg) (hf : bytes -> N) (K : list bytes),
+  (forall k1 k2, In k1 K -> In k2 K -> hf k1 = hf k2 -> k1 = k2) -> 0 < c_splitcap cf ->
+  forall ranges b m,
+  Rel hf K b m -> GPre cf hf K b -> Forall (fun r => (fst r <= snd r < b_head b)%nat) ranges ->
+  Rel hf K (gc_passes cf hf b ranges) m /\ GPre cf hf K (gc_passes cf hf b ranges) /\ b_head (gc_passes cf hf b ranges) = b_head b.
+Proof. exact gc_passes_view. Qed.
+Print Assumptions C03_any_number_of_passes.
+
 (* (3) and life goes on: a GC pass followed by ANY history of client operations answers exactly as the
    reference map does, the pass itself being invisible *)
 Theorem C03_gc_then_history : forall (lc : l2cfg) (K : list bytes) b m x y ops sops,
